@@ -132,7 +132,7 @@ def csv_name(fn):
 def fam_batch(ctx, rng):
     d = tempfile.mkdtemp(prefix="c19-", dir=os.environ.get("HVMON_SCRATCH"))
     try:
-        nfiles = int(rng.choice([2, 3, 3, 4, 5, 8])) if ctx.tier == "thorough" else int(rng.choice([2, 3, 4]))
+        nfiles = int(rng.choice([2, 3, 3, 4, 5, 8])) if ctx.tier == "thorough" else int(rng.choice([2, 3, 4, 5, 5]))
         pre_f, proc_f, kind, wl = make_settings(rng, d)
         rates = [int(x) for x in rng.choice([100, 200, 250, 500], nfiles)]
         if len(set(rates)) == 1:
